@@ -519,6 +519,15 @@ def run_case(ctx, impl, case, number):
 	os.makedirs(include_abs, exist_ok=True)
 	paths = write_graph(graph, include_abs)
 	cwd, include, _ = resolve_config(config, case_dir)
+	if os.path.realpath(cwd) != os.path.realpath(include_abs):
+		# decoys: the working directory holds files with the very names the schema imports (also the missing ones); imports are
+		# relative to the include path only, so none of these may ever be read
+		for index, relative in enumerate(sorted(set(paths.values()))):
+			target = os.path.join(cwd, relative)
+			os.makedirs(os.path.dirname(target), exist_ok=True)
+			with open(target, 'wt', encoding='utf8', newline='') as outfile:
+				outfile.write(f'using DecoyType{chr(65 + index % 26)}{chr(97 + index // 26 % 26)} = uint8\n')
+		ctx.count('decoy-files-in-cwd', len(set(paths.values())))
 	root_rel = paths[graph['root']]
 	root = root_argument(config, include, include_abs, root_rel)
 	if root is None:
